@@ -27,11 +27,13 @@ import (
 	"fmt"
 	"regexp"
 	"strings"
+	"sync"
 	"testing"
 	"time"
 
 	eth2apiv1 "github.com/attestantio/go-eth2-client/api/v1"
 	"github.com/attestantio/go-eth2-client/spec/phase0"
+	"github.com/ethereum/go-ethereum/common"
 	specqbft "github.com/bloxapp/ssv-spec/qbft"
 	spectypes "github.com/bloxapp/ssv-spec/types"
 	"github.com/bloxapp/ssv-spec/types/testingutils"
@@ -46,6 +48,7 @@ import (
 	"github.com/bloxapp/ssv/network/commons"
 	"github.com/bloxapp/ssv/networkconfig"
 	operatordatastore "github.com/bloxapp/ssv/operator/datastore"
+	"github.com/bloxapp/ssv/operator/keys"
 	"github.com/bloxapp/ssv/operator/duties/dutystore"
 	nodestorage "github.com/bloxapp/ssv/operator/storage"
 	"github.com/bloxapp/ssv/protocol/v2/blockchain/beacon"
@@ -70,6 +73,7 @@ type gmsg struct {
 	raw    *spectypes.SSVMessage
 	data   []byte
 	kind   int // index into c10Kinds
+	signed bool // sent inside a signed envelope
 	sub    string
 	desc   string
 	role   spectypes.BeaconRole
@@ -147,6 +151,25 @@ type c10 struct {
 	duties int
 	epochN map[string]int // role|epoch -> duties planned (attester / aggregator: <= 2 per epoch)
 	maxRnd specqbft.Round
+	rsa    []keys.OperatorPrivateKey // operator keys of the signed-envelope layer
+}
+
+var (
+	c10KeysOnce sync.Once
+	c10Keys     []keys.OperatorPrivateKey
+	c10Pubs     [][]byte
+)
+
+func c10LoadKeys() {
+	c10KeysOnce.Do(func() {
+		for _, s := range c10RSAPrivB64 {
+			k, err := keys.PrivateKeyFromString(s)
+			must(err)
+			p, err := k.Public().Base64()
+			must(err)
+			c10Keys, c10Pubs = append(c10Keys, k), append(c10Pubs, p)
+		}
+	})
 }
 
 // simTimer: deadline computed by the real RoundTimer, fired by the event loop.
@@ -186,9 +209,17 @@ func newC10(d *sim.D) *c10 {
 		}
 	})
 	w := c.w
-	c.slot0 = w.baseSlot + 1
+	c.slot0 = w.baseSlot + 1 + phase0.Slot(d.Cfg.Get("slot_base", 0))
 	c.start0 = bn.GetSlotStartTime(c.slot0)
 	c.netCfg = networkconfig.NetworkConfig{Name: "verif", Beacon: bn, Domain: testingutils.TestingSSVDomainType, PermissionlessActivationEpoch: 1 << 40}
+	switch d.Cfg.Get("fork", 0) { // signed envelopes: never / always / from the epoch after the first duty's
+	case 1:
+		c.netCfg.PermissionlessActivationEpoch = 0
+	case 2:
+		c.netCfg.PermissionlessActivationEpoch = bn.EstimatedEpochAtSlot(c.slot0)
+	}
+	c10LoadKeys()
+	c.rsa = c10Keys
 	c.topic = commons.GetTopicFullName(commons.ValidatorTopicID(w.ks.ValidatorPK.Serialize())[0])
 
 	ns, err := nodestorage.NewNodeStorage(logger, sim.NewMemDB())
@@ -196,6 +227,10 @@ func newC10(d *sim.D) *c10 {
 	sh := *w.ops[0].share
 	sh.Metadata = ssvtypes.Metadata{BeaconMetadata: &beacon.ValidatorMetadata{Index: testingutils.TestingValidatorIndex, Status: eth2apiv1.ValidatorStateActiveOngoing}}
 	must(ns.Shares().Save(nil, &sh))
+	for i := 0; i < n; i++ {
+		_, err := ns.SaveOperatorData(nil, &registrystorage.OperatorData{ID: uint64(i + 1), PublicKey: c10Pubs[i], OwnerAddress: common.Address{byte(i + 1)}})
+		must(err)
+	}
 	c.ds = dutystore.New()
 	ep := bn.EstimatedEpochAtSlot(c.slot0)
 	for p := uint64(0); p < 2; p++ {
@@ -291,7 +326,16 @@ func (c *c10) collect(op *operator) {
 			c.d.Probe("diag-unencodable-broadcast")
 			continue
 		}
-		g := &gmsg{id: len(c.msgs), from: op.idx, raw: m, data: data, role: m.MsgID.GetRoleType()}
+		// p2pNetwork.Broadcast: the sender wraps the message in a signed envelope once the fork is active at ITS clock
+		signed := false
+		if c.netCfg.Beacon.EstimatedCurrentEpoch() > c.netCfg.PermissionlessActivationEpoch {
+			signed = true
+			sig, err := c.rsa[op.idx].Sign(data)
+			must(err)
+			data = commons.EncodeSignedSSVMessage(data, op.id, sig)
+			c.d.Probe("signed-envelope-sent")
+		}
+		g := &gmsg{id: len(c.msgs), from: op.idx, raw: m, data: data, role: m.MsgID.GetRoleType(), signed: signed}
 		g.kind, g.sub, g.height, g.round, g.desc = c10Classify(m)
 		c.msgs = append(c.msgs, g)
 		if g.round > c.maxRnd {
@@ -425,11 +469,15 @@ func (c *c10) deliver(e *c10ev) {
 		if g.kind == 5 {
 			cls = roleName(g.role) + "/" + cls
 		}
-		switch verdict {
-		case "reject":
+		switch {
+		case verdict != "accept" && g.signed != (c.netCfg.Beacon.EstimatedCurrentEpoch() > c.netCfg.PermissionlessActivationEpoch):
+			// the sender chose the wire format by ITS clock at send time, the receiver by its clock at arrival
+			c.d.Finding("honest-message-rejected", "in-flight-across-fork-activation", "#%d %s from operator %d was sent before the signed-envelope fork activated (unsigned, as Broadcast prescribes at that instant) and validated at t=%v, after the activation, by %s: %s (%s)",
+				g.id, g.desc, g.from+1, c.rel(), who, verdict, text)
+		case verdict == "reject":
 			c.d.Finding("honest-message-rejected", cls+"/"+c.ruleDetail(text), "mode %d: #%d %s from correct operator %d, validated by correct %s at t=%v (slot start %+v), was REJECTED: %s",
 				c.mode, g.id, g.desc, g.from+1, who, c.rel(), time.Since(c.netCfg.Beacon.GetSlotStartTime(phase0.Slot(g.height))), text)
-		case "accept":
+		case verdict == "accept":
 		default:
 			c.d.Probe("not-accepted: " + cls + "/" + c10Rule(text))
 			if c.mode == 0 {
@@ -961,13 +1009,16 @@ func init() {
 			lm := []int64{2, 20, 100, 250}[r.Intn(4)]
 			c := sim.Config{"n": int64(n), "mode": int64(mode), "byz_rel": rel, "roles": roles, "lat_max": lm, "lat_seed": int64(r.Intn(1 << 30)),
 				"start_jit": []int64{0, 50, 300}[r.Intn(3)], "diverge": int64(r.Intn(2)), "sc_idx": int64(r.Intn(5)), "slots": int64(1 + r.Weighted(6, 3, 1)),
-				"steps": int64(30 + r.Intn(120)), "horizon_s": 30, "full_node": int64(r.Intn(2)), "w_mute": int64(5 + r.Intn(40)), "w_outage": int64(2 + r.Intn(12))}
+				"fork": int64(r.Weighted(5, 4, 2)), "steps": int64(30 + r.Intn(120)), "horizon_s": 30, "full_node": int64(r.Intn(2)), "w_mute": int64(5 + r.Intn(40)), "w_outage": int64(2 + r.Intn(12))}
 			if mode > 0 {
 				c["jit"] = []int64{0, lm / 2, lm}[r.Intn(3)]
 				c["start_jit"] = []int64{0, 50, 300, 1500}[r.Intn(4)]
 			}
 			if mode == 2 && r.Chance(0.35) {
 				c["lone_first"] = 1
+			}
+			if c["fork"] == 2 { // first duty in the last slot of the epoch before activation
+				c["slot_base"] = 30
 			}
 			if mode == 2 && r.Chance(0.25) {
 				c["horizon_s"] = 700 // slow rounds (2 minutes each) after round 8
